@@ -48,7 +48,7 @@ PROPS = {
     ),
     'C03': dict(
         level='proof',
-        verus=['span', 'suggestion', 'patterns'],
+        verus=['span', 'suggestion', 'patterns', 'number_lint'],
         kani_quick=[], kani_thorough=[],
         rac=['lint_group_cache'],
         unverified=[
